@@ -40,6 +40,9 @@ var (
 	// VxC01SvcMatch[i] is the verdict of service rule i for the host.
 	VxC01SvcRules []*rules.NetworkRule
 	VxC01SvcMatch []bool
+	// VxC01SvcMatchFn, when set, decides service rule i from the request the
+	// real code built (NameCase entry: the rule matches the lower-case name).
+	VxC01SvcMatchFn func(i int, req *rules.Request) bool
 	VxC01Paused   bool
 	VxC01Clock    int64
 )
@@ -53,6 +56,9 @@ func VxC01MatchRequest(e *urlfilter.DNSEngine, req *urlfilter.DNSRequest) (*urlf
 func VxC01RuleMatch(r *rules.NetworkRule, req *rules.Request) bool {
 	for i, sr := range VxC01SvcRules {
 		if sr == r {
+			if VxC01SvcMatchFn != nil {
+				return VxC01SvcMatchFn(i, req)
+			}
 			return VxC01SvcMatch[i]
 		}
 	}
@@ -71,6 +77,7 @@ func VxC01Now() time.Time { return time.Unix(VxC01Clock, 0) }
 func VxC01NewFilter(c *Config, services []string) *DNSFilter {
 	serviceRules = map[string][]*rules.NetworkRule{}
 	VxC01SvcRules = nil
+	VxC01SvcMatchFn = nil
 	for _, name := range services {
 		r := &rules.NetworkRule{RuleText: "||" + name + "^", FilterListID: int(rulelist.URLFilterIDBlockedService)}
 		serviceRules[name] = []*rules.NetworkRule{r}
